@@ -444,6 +444,26 @@ def r6_start_once(ctx: Context) -> None:
     ctx.sample({"after_start_without_preempt": sorted(f"{s}/{p}" for s, p in reach)})
 
 
+def r8_release_event_uses_own_time(ctx: Context) -> None:
+    ctx.rule("C02.R8", "a TASK_RELEASE event for task X is stamped with X's own release time (possibly max-ed with the "
+                       "current time), never with another task's")
+    n = 0
+    for m in ctx.repo.program_modules():
+        for e in event_constructions(m.tree, "TASK_RELEASE"):
+            kw = {k.arg: k.value for k in e.keywords}
+            if "task" not in kw or "time" not in kw:
+                continue
+            n += 1
+            who = norm(kw["task"])
+            rts = [norm(x.value) for x in ast.walk(kw["time"]) if isinstance(x, ast.Attribute) and x.attr in ("release_time", "intended_release_time")]
+            ok = bool(rts) and all(r == who for r in rts)
+            ctx.check(ok, "C02.R8", f"{qualname(e)}|release of `{who}` at its own release time", loc(e), f"time=`{norm(kw['time'])[:50]}`",
+                      f"the TASK_RELEASE event of `{who}` is stamped `{norm(kw['time'])[:70]}`, which reads the release time of "
+                      f"{sorted(set(r for r in rts if r != who)) or 'no task'}: a task with a later release time of its own is released (and can "
+                      "start) before that time")
+    ctx.floor("C02.R8", "TASK_RELEASE event constructions", n, 3)
+
+
 def run(ctx: Context) -> None:
     ctx.isolate(r1_who_may_start)
     ctx.isolate(r2_readiness_dominates)
@@ -452,3 +472,4 @@ def run(ctx: Context) -> None:
     ctx.isolate(r5_start_after_release)
     ctx.isolate(r6_start_once)
     ctx.isolate(c06.r8b_task_is_complete, rule="C02.R7")
+    ctx.isolate(r8_release_event_uses_own_time)
